@@ -138,8 +138,11 @@ func processBlock(exp Exporter) {
 				}
 			}
 			handler(exp)
-			switch b.Name {
-			case "#de", "#.", "#if", "#;", "#dv", "X":
+			switch {
+			case ctx.elided:
+				// restricted to another format: as if it were absent
+				ctx.elided = false
+			case b.Name == "#de", b.Name == "#.", b.Name == "#if", b.Name == "#;", b.Name == "#dv", b.Name == "X":
 				// definitions, conditionals and declarations are
 				// invisible to rendering
 			default:
@@ -150,7 +153,9 @@ func processBlock(exp Exporter) {
 		}
 	case *ast.TextBlock:
 		processText(exp)
-		ctx.PrevMacro = ""
+		if ctx.bfInfo == nil || !ctx.bfInfo.ignore {
+			ctx.PrevMacro = ""
+		}
 	}
 }
 
